@@ -676,7 +676,7 @@ def c10(ctx):
         plan = [("tsan", k, 6 + k % 3, 6000) for k in range(160)] + [("asan", 1000 + k, 8, 8000) for k in range(32)]
         try:
             build.build_lib("ctsan")
-            plan += [("ctsan", 5000 + k, 6 + k % 3, 6000) for k in range(64)]
+            plan += [("ctsan", 5000 + k, 6 + k % 3, 4000) for k in range(32)]
         except build.BuildError:
             pass
     logdir = os.path.join(ctx.scratch, "sanlogs")
